@@ -817,8 +817,12 @@ def run_align(ctx, cases):
             if negtotal and not invalid:
                 # malformed input (an event ending before t = 0): calc_duration clamps at 0; model agreement only
                 ctx.count('align.negative-total.model-only')
-                lines.append(line)
-                keep.append((c, out, err))
+                Dn = max([Fraction(0)] + [l + dl for l, dl in zip(lens, delays)])
+                edge = any(s == 'right' and abs(Dn - max(Fraction(0), l + dl) + dl) <= Fraction(1, 10 ** 9)
+                           for (s, _), l, dl in zip(flat, lens, delays))
+                if not edge:      # the sign of a right-aligned delay of ~0 is decided in binary64 by the code
+                    lines.append(line)
+                    keep.append((c, out, err))
                 continue
             D = max([Fraction(0)] + [l + dl for l, dl in zip(lens, delays)])
             want = [Fraction(0) if s == 'left' else (D - l) / 2 if s == 'center' else D - l
